@@ -14,7 +14,7 @@ RULE = ("programs with arbitrary alternating nesting of sequential and parallel 
 ASSUMPTIONS = ["a loop is an opaque item of the outer sequence; its body is compared by meaning, not re-scheduled",
                "a subcircuit block is an opaque annotated item whose inner schedule must be preserved"]
 TIERS = {"quick": {"shards": 8, "budget_s": 60}, "thorough": {"shards": 16, "budget_s": 300}}
-REQUIRE = {"programs-with-same-kind-nesting-assembled": 1000, "parallel-subcircuit-blocks-fused": 300, "schedules-compared": 1500, "loop-under-parallel": 200, "unequal-branches": 500, "with-subcircuit": 200,
+REQUIRE = {"unscheduled-blocks-assembled": 500, "statement-objects-placed-more-than-once": 300, "programs-with-same-kind-nesting-assembled": 1000, "parallel-subcircuit-blocks-fused": 300, "schedules-compared": 1500, "loop-under-parallel": 200, "unequal-branches": 500, "with-subcircuit": 200,
            "empty-blocks": 200, "depth>=4": 200}
 
 
@@ -99,7 +99,8 @@ def judge(case):
     prog = case_prog(case)
     if case.get("assemble"):
         # put together from core constructors: blocks of one kind may then sit directly inside each other
-        o = lib.outcome(apiroute.assemble_from_objects, tuple(x for x in prog if not (isinstance(x, tuple) and x[0] in ("usepulses", "macro"))))
+        o = lib.outcome(apiroute.assemble_from_objects, tuple(x for x in prog if not (isinstance(x, tuple) and x[0] in ("usepulses", "macro"))),
+                        None, case.get("aseed"))
         if o[0] != "ok":
             return "inconclusive:cannot-assemble:%s" % (o[2],), [], {}
     else:
@@ -240,6 +241,35 @@ def gen_prog(rng):
     return ("circuit",) + tuple(hdr) + (mac,) + tuple(body), feats
 
 
+def duplicate_statement(rng, prog):
+    """Some compound statement of a sequential context written twice in a row (the second copy is the same S-expression,
+    which the object assembler may turn into the same object)."""
+    seqs = [b for b in sx.walk(prog) if b[0] in ("circuit", "sequential_block", "subcircuit_block")]
+    cands = []
+    for b in seqs:
+        start = 2 if b[0] == "subcircuit_block" else 1
+        for i in range(start, len(b)):
+            if isinstance(b[i], tuple) and b[i][0] in ("sequential_block", "parallel_block", "subcircuit_block", "loop"):
+                cands.append((b, i))
+    if not cands:
+        return prog
+    target, i = rng.choice(cands)
+    if target[0] == "sequential_block" and target[i][0] == "sequential_block":
+        return prog
+    new = target[:i + 1] + (target[i],) + target[i + 1:]
+    done = [False]
+
+    def rw(s):
+        if not isinstance(s, tuple):
+            return s
+        if s is target and not done[0]:
+            done[0] = True
+            return new
+        return tuple(rw(x) for x in s)
+
+    return rw(prog)
+
+
 def nest_same_kind(rng, prog):
     """Wrap a run of children of some block in another block of the SAME kind (only circuits made from core objects can
     look like that).  Returns the new program or None."""
@@ -314,6 +344,7 @@ def process(ctx, case, feats, seen):
         base = {"fuse": True} if (case.get("fuse") and clause not in _clauses({"prog": prog})) else {}
         if case.get("assemble"):
             base["assemble"] = True
+            base["aseed"] = case.get("aseed")
         small = minimise.minimise(prog, lambda p: clause in _clauses(dict(base, prog=p)), budget=200)
         d2 = [x for x in judge(dict(base, prog=small))[1] if x[0] == clause]
         f = set()
@@ -344,10 +375,17 @@ def shard(ctx):
         if i % 5 == 0:
             p2 = nest_same_kind(ctx.rng, prog)
             if p2 is not None:
-                process(ctx, {"prog": p2, "assemble": True}, feats, seen)
+                process(ctx, {"prog": p2, "assemble": True, "aseed": ctx.rng.randrange(1 << 30)}, feats, seen)
                 rec.count("programs-with-same-kind-nesting-assembled")
+        if i % 5 == 2:
+            # the program put together from core objects, with unscheduled blocks and shared statement objects; one
+            # block / loop / subcircuit statement is written twice in a row so that there is something to share
+            process(ctx, {"prog": duplicate_statement(ctx.rng, prog), "assemble": True, "aseed": ctx.rng.randrange(1 << 30)}, feats, seen)
+            rec.count("programs-assembled-with-unscheduled-or-shared-statements")
         if i <= 3:
             rec.sample({"text": sx.to_text(prog)})
+    rec.counters["unscheduled-blocks-assembled"] = apiroute.ASSEMBLE_STATS["unscheduled"]
+    rec.counters["statement-objects-placed-more-than-once"] = apiroute.ASSEMBLE_STATS["shared"]
     monitors.report_contracts(rec)
 
 
